@@ -5,7 +5,7 @@ uninterpreted function K(cell) in {raise} U Token (assumed contract A-kern-outco
 non-kern importers: K(cell) if it is a token of the shared structure, otherwise a SimpleToken carrying the verbatim cell
 and the spine type's own category; never an exception for a non-empty string."""
 from pyvc.contract import contract
-from pyvc.ghost import ite, conj, disj, implies, iff, havoc_bool, havoc_enum, havoc_str, ghost_set, ghost_get, symbolic_run
+from pyvc.ghost import ite, conj, disj, implies, iff, uf_bool, uf_enum, uf_str, symbolic_run
 from contracts.spec_tokens import CELL_CORPUS, shared_structure, same_token
 from contracts.shapes import mk_spine_importer
 from kernpy.core.tokens import TokenCategory, SimpleToken
@@ -30,36 +30,30 @@ class kern_importer_init:
 
 @contract('kernpy.core.kern_spine_importer.KernSpineImporter.import_token', props=['C18'], assumed=A_KERN)
 class kern_import_token:
+    """K as uninterpreted functions of the cell: the same cell has the same outcome on every call (A-kern-outcome)"""
     def raises(encoding):
-        r = havoc_bool('K.raises')
-        ghost_set('K.raises', r)
-        return {'Exception': r}
+        return {'Exception': uf_bool('K.raises', encoding)}
 
     def model(self, encoding):
-        tok = SimpleToken.__new__(SimpleToken)
-        tok.encoding = havoc_str('K.encoding')
-        tok.category = havoc_enum('K.category', TokenCategory)
-        tok.hidden = havoc_bool('K.hidden')
-        ghost_set('K.token', tok)
-        return tok
+        return k_token(encoding)
+
+
+def k_token(encoding):
+    tok = SimpleToken.__new__(SimpleToken)
+    tok.encoding = uf_str('K.encoding', encoding)
+    tok.category = uf_enum('K.category', TokenCategory, encoding)
+    tok.hidden = uf_bool('K.hidden', encoding)
+    return tok
 
 
 def kern_outcome(encoding):
-    """K(cell): the token the kern importer returns for the cell, None if it raises.  Symbolic runs read the outcome the
-    assumed contract produced on this path; native runs ask the real (fresh) kern importer."""
+    """K(cell): the token the kern importer returns for the cell, None if it raises.  Symbolic runs: the uninterpreted functions of
+    the assumed contract (total: defined whether or not the importer consulted the kern parser); native runs ask the real (fresh)
+    kern importer."""
     if symbolic_run():
-        if ghost_get('K.raises', None) is not None:
-            return ghost_get('K.token', None)          # the outcome the importer saw on this path
-        # the importer did not consult the kern parser on this path: K(cell) is still whatever it is
-        if havoc_bool('K.raises'):
+        if uf_bool('K.raises', encoding):
             return None
-        tok = SimpleToken.__new__(SimpleToken)
-        tok.encoding = havoc_str('K.encoding')
-        tok.category = havoc_enum('K.category', TokenCategory)
-        tok.hidden = havoc_bool('K.hidden')
-        ghost_set('K.raises', False)
-        ghost_set('K.token', tok)
-        return tok
+        return k_token(encoding)
     try:
         return KernSpineImporter().import_token(encoding)
     except Exception:
@@ -96,6 +90,7 @@ def importer_contract(cls_name, module):
 @importer_contract('TextSpineImporter', 'text_spine_importer')
 class it_text:
     assumes = (A_KERN,)
+    modifies = ('self.**',)       # the importer's own state is not framed: the history lemmas below decide whether it matters
 
     def inputs(g):
         return {'self': mk_spine_importer(g, TextSpineImporter), 'encoding': g.str_sym('cell', CELL_CORPUS)}
@@ -110,6 +105,7 @@ class it_text:
 @importer_contract('DynamSpineImporter', 'dynam_spine_importer')
 class it_dynam:
     assumes = (A_KERN,)
+    modifies = ('self.**',)       # the importer's own state is not framed: the history lemmas below decide whether it matters
 
     def inputs(g):
         return {'self': mk_spine_importer(g, DynamSpineImporter), 'encoding': g.str_sym('cell', CELL_CORPUS)}
@@ -124,6 +120,7 @@ class it_dynam:
 @importer_contract('DynSpineImporter', 'dyn_importer')
 class it_dyn:
     assumes = (A_KERN,)
+    modifies = ('self.**',)       # the importer's own state is not framed: the history lemmas below decide whether it matters
 
     def inputs(g):
         return {'self': mk_spine_importer(g, DynSpineImporter), 'encoding': g.str_sym('cell', CELL_CORPUS)}
@@ -138,6 +135,7 @@ class it_dyn:
 @importer_contract('HarmSpineImporter', 'harm_spine_importer')
 class it_harm:
     assumes = (A_KERN,)
+    modifies = ('self.**',)       # the importer's own state is not framed: the history lemmas below decide whether it matters
 
     def inputs(g):
         return {'self': mk_spine_importer(g, HarmSpineImporter), 'encoding': g.str_sym('cell', CELL_CORPUS)}
@@ -152,6 +150,7 @@ class it_harm:
 @importer_contract('MxhmSpineImporter', 'mhxm_spine_importer')
 class it_mxhm:
     assumes = (A_KERN,)
+    modifies = ('self.**',)       # the importer's own state is not framed: the history lemmas below decide whether it matters
 
     def inputs(g):
         return {'self': mk_spine_importer(g, MxhmSpineImporter), 'encoding': g.str_sym('cell', CELL_CORPUS)}
@@ -166,6 +165,7 @@ class it_mxhm:
 @importer_contract('FingSpineImporter', 'fing_spine_importer')
 class it_fing:
     assumes = (A_KERN,)
+    modifies = ('self.**',)       # the importer's own state is not framed: the history lemmas below decide whether it matters
 
     def inputs(g):
         return {'self': mk_spine_importer(g, FingSpineImporter), 'encoding': g.str_sym('cell', CELL_CORPUS)}
@@ -180,6 +180,7 @@ class it_fing:
 @importer_contract('BasicSpineImporter', 'basic_spine_importer')
 class it_basic:
     assumes = (A_KERN,)
+    modifies = ('self.**',)       # the importer's own state is not framed: the history lemmas below decide whether it matters
 
     def inputs(g):
         return {'self': mk_spine_importer(g, BasicSpineImporter), 'encoding': g.str_sym('cell', CELL_CORPUS)}
@@ -211,3 +212,136 @@ class create_importer:
             if spine_type == h:
                 return type(result).__name__ == HEADER_TO_CLASS[h]
         return type(result).__name__ == 'BasicSpineImporter'
+
+
+# ------------------------------------------------------------------------------------------------ history (the importer object is reused)
+# The Importer keeps one spine importer per header text and feeds it every cell of its spines: the outcome of a cell must not depend
+# on the cells seen before.  Two consecutive calls on one object, any two cells (equal ones included): the second outcome is the
+# dispatch of the second cell alone.  With the one-call contracts above (which start from a freshly constructed object) this covers
+# state carried from one call into the next; longer histories are covered by the bounded document-level contracts.
+def second_call_as_fresh(imp, first, second, own):
+    try:
+        imp.import_token(first)
+    except Exception:
+        pass
+    r = imp.import_token(second)
+    return implies(k_not_own_family(second), dispatch_ok(r, second, own))
+
+
+def two_cells(g, cls):
+    first = g.str_sym('first', CELL_CORPUS)
+    # (the corpus only guides the native witness search: half of the sampled pairs are equal cells)
+    return {'imp': mk_spine_importer(g, cls), 'first': first, 'second': g.str_sym('second', [first] * len(CELL_CORPUS) + CELL_CORPUS)}
+
+
+@contract(None, props=['C18'])
+class history_text:
+    assumes = (A_KERN,)
+
+    inline = ('kernpy.core.text_spine_importer.TextSpineImporter.import_token',)
+
+    def inputs(g):
+        return two_cells(g, TextSpineImporter)
+
+    def requires(first, second):
+        return conj(len(first) > 0, len(second) > 0)
+
+    def post_second_call_as_fresh(imp, first, second):
+        return second_call_as_fresh(imp, first, second, OWN['TextSpineImporter'])
+
+
+@contract(None, props=['C18'])
+class history_dynam:
+    assumes = (A_KERN,)
+
+    inline = ('kernpy.core.dynam_spine_importer.DynamSpineImporter.import_token',)
+
+    def inputs(g):
+        return two_cells(g, DynamSpineImporter)
+
+    def requires(first, second):
+        return conj(len(first) > 0, len(second) > 0)
+
+    def post_second_call_as_fresh(imp, first, second):
+        return second_call_as_fresh(imp, first, second, OWN['DynamSpineImporter'])
+
+
+@contract(None, props=['C18'])
+class history_dyn:
+    assumes = (A_KERN,)
+
+    inline = ('kernpy.core.dyn_importer.DynSpineImporter.import_token',)
+
+    def inputs(g):
+        return two_cells(g, DynSpineImporter)
+
+    def requires(first, second):
+        return conj(len(first) > 0, len(second) > 0)
+
+    def post_second_call_as_fresh(imp, first, second):
+        return second_call_as_fresh(imp, first, second, OWN['DynSpineImporter'])
+
+
+@contract(None, props=['C18'])
+class history_harm:
+    assumes = (A_KERN,)
+
+    inline = ('kernpy.core.harm_spine_importer.HarmSpineImporter.import_token',)
+
+    def inputs(g):
+        return two_cells(g, HarmSpineImporter)
+
+    def requires(first, second):
+        return conj(len(first) > 0, len(second) > 0)
+
+    def post_second_call_as_fresh(imp, first, second):
+        return second_call_as_fresh(imp, first, second, OWN['HarmSpineImporter'])
+
+
+@contract(None, props=['C18'])
+class history_mxhm:
+    assumes = (A_KERN,)
+
+    inline = ('kernpy.core.mhxm_spine_importer.MxhmSpineImporter.import_token',)
+
+    def inputs(g):
+        return two_cells(g, MxhmSpineImporter)
+
+    def requires(first, second):
+        return conj(len(first) > 0, len(second) > 0)
+
+    def post_second_call_as_fresh(imp, first, second):
+        return second_call_as_fresh(imp, first, second, OWN['MxhmSpineImporter'])
+
+
+@contract(None, props=['C18'])
+class history_fing:
+    assumes = (A_KERN,)
+
+    inline = ('kernpy.core.fing_spine_importer.FingSpineImporter.import_token',)
+
+    def inputs(g):
+        return two_cells(g, FingSpineImporter)
+
+    def requires(first, second):
+        return conj(len(first) > 0, len(second) > 0)
+
+    def post_second_call_as_fresh(imp, first, second):
+        return second_call_as_fresh(imp, first, second, OWN['FingSpineImporter'])
+
+
+@contract(None, props=['C18'])
+class history_basic:
+    assumes = (A_KERN,)
+
+    inline = ('kernpy.core.basic_spine_importer.BasicSpineImporter.import_token',)
+
+    def inputs(g):
+        return two_cells(g, BasicSpineImporter)
+
+    def requires(first, second):
+        return conj(len(first) > 0, len(second) > 0)
+
+    def post_second_call_as_fresh(imp, first, second):
+        return second_call_as_fresh(imp, first, second, OWN['BasicSpineImporter'])
+
